@@ -179,4 +179,75 @@ theorem compareValues_eq_value_cmp (a b : Value) (ha : isFiniteNumber a = true) 
     Dy.cmp_eq_scale _ _ (-1074) numValue_exp_ge numValue_exp_ge]
   rfl
 
+/-! ### timestamps: lexicographic (day, second of day, nanosecond) order vs. the instant -/
+
+/-- the ranges of the fields of every TIMESTAMP the model creates (`createTimestamp`, `tsOfTotal`, chrono's
+`NaiveTime` invariant): second of day in [0, 86400), nanosecond in [0, 2·10^9) where [10^9, 2·10^9) is chrono's
+leap-second representation -/
+def TsValid (s f : Int) : Prop := 0 ≤ s ∧ s < 86400 ∧ 0 ≤ f ∧ f < 2000000000
+/-- ... and not in the leap-second representation -/
+def TsPlain (s f : Int) : Prop := 0 ≤ s ∧ s < 86400 ∧ 0 ≤ f ∧ f < 1000000000
+
+/-- position on a time line on which every second has room for its leap second (2·10^9 slots per second) -/
+def tsLeapKey (d s f : Int) : Int := (d * 86400 + s) * 2000000000 + f
+
+theorem ts_lex_eq_instant (d s f d' s' f' : Int) (h : TsPlain s f) (h' : TsPlain s' f') :
+    ((compare d d').then (compare s s')).then (compare f f') = compare (tsTotal d s f) (tsTotal d' s' f') := by
+  obtain ⟨a1, a2, a3, a4⟩ := h
+  obtain ⟨b1, b2, b3, b4⟩ := h'
+  unfold tsTotal nsPerSec
+  generalize hX : (d * 86400 + s) * 1000000000 + f = X
+  generalize hY : (d' * 86400 + s') * 1000000000 + f' = Y
+  rcases Int.lt_trichotomy d d' with h | h | h
+  · rw [intCompare_lt h, intCompare_lt (show X < Y by omega)]; rfl
+  · rw [intCompare_eq h]
+    rcases Int.lt_trichotomy s s' with h2 | h2 | h2
+    · rw [intCompare_lt h2, intCompare_lt (show X < Y by omega)]; rfl
+    · rw [intCompare_eq h2]
+      rcases Int.lt_trichotomy f f' with h3 | h3 | h3
+      · rw [intCompare_lt h3, intCompare_lt (show X < Y by omega)]; rfl
+      · rw [intCompare_eq h3, intCompare_eq (show X = Y by omega)]; rfl
+      · rw [intCompare_gt h3, intCompare_gt (show Y < X by omega)]; rfl
+    · rw [intCompare_gt h2, intCompare_gt (show Y < X by omega)]; rfl
+  · rw [intCompare_gt h, intCompare_gt (show Y < X by omega)]; rfl
+
+theorem ts_lex_eq_leapKey (d s f d' s' f' : Int) (h : TsValid s f) (h' : TsValid s' f') :
+    ((compare d d').then (compare s s')).then (compare f f') = compare (tsLeapKey d s f) (tsLeapKey d' s' f') := by
+  obtain ⟨a1, a2, a3, a4⟩ := h
+  obtain ⟨b1, b2, b3, b4⟩ := h'
+  unfold tsLeapKey
+  generalize hX : (d * 86400 + s) * 2000000000 + f = X
+  generalize hY : (d' * 86400 + s') * 2000000000 + f' = Y
+  rcases Int.lt_trichotomy d d' with h | h | h
+  · rw [intCompare_lt h, intCompare_lt (show X < Y by omega)]; rfl
+  · rw [intCompare_eq h]
+    rcases Int.lt_trichotomy s s' with h2 | h2 | h2
+    · rw [intCompare_lt h2, intCompare_lt (show X < Y by omega)]; rfl
+    · rw [intCompare_eq h2]
+      rcases Int.lt_trichotomy f f' with h3 | h3 | h3
+      · rw [intCompare_lt h3, intCompare_lt (show X < Y by omega)]; rfl
+      · rw [intCompare_eq h3, intCompare_eq (show X = Y by omega)]; rfl
+      · rw [intCompare_gt h3, intCompare_gt (show Y < X by omega)]; rfl
+    · rw [intCompare_gt h2, intCompare_gt (show Y < X by omega)]; rfl
+  · rw [intCompare_gt h, intCompare_gt (show Y < X by omega)]; rfl
+
+/-- timestamps made by `tsOfTotal` (timestamp ± interval) are in range and never in leap representation -/
+theorem tsOfTotal_plain (t : Int) : ∃ d s f, tsOfTotal t = .timestamp d s f ∧ TsPlain s f := by
+  refine ⟨_, _, _, rfl, ?_⟩
+  unfold TsPlain nsPerSec
+  omega
+
+/-- timestamps made by `create_timestamp` from non-negative fields are in range -/
+theorem createTimestamp_valid (y mo d h mi s us : Int) (v : Value)
+    (h0 : 0 ≤ h) (m0 : 0 ≤ mi) (s0 : 0 ≤ s) (u0 : 0 ≤ us)
+    (hv : createTimestamp y mo d h mi s us = some v) : ∃ dd ss ff, v = .timestamp dd ss ff ∧ TsValid ss ff := by
+  unfold createTimestamp at hv
+  split at hv
+  · rename_i hc
+    simp only [Bool.and_eq_true, decide_eq_true_eq] at hc
+    obtain ⟨⟨⟨⟨⟨_, h1⟩, h2⟩, h3⟩, h4⟩, _⟩ := hc
+    refine ⟨_, _, _, (Option.some.inj hv).symm, ?_⟩
+    unfold TsValid; omega
+  · exact absurd hv (by simp)
+
 end Sqlgrep
